@@ -172,8 +172,14 @@ Definition run_dpanic (kind n k : N) : list N :=
        UniqueArc::new + into_inner, TryFrom + into_inner): it comes out undestroyed and is destroyed once by the caller;
        shared unwrap_or_clone: the clone and the original are destroyed once each.  Last number: blocks allocated and
        not released (the block of a zero-sized payload still holds the count: it is a real allocation) *)
+    (* kinds 40..42: zero-sized ELEMENTS with a destructor through From<Vec<T>>, from_header_and_vec (zero-sized header
+       too) and an inexact iterator: three values, none destroyed by the constructor, each once with the handle;
+       kinds 43, 44: Arc::make_mut / OffsetArc::make_mut on a SHARED zero-sized value: one Clone call (sixth number),
+       the handle redirected to a block of its own, two values destroyed in the end *)
     (if (kind <? 40) && (n =? 0) && (k =? 0)
-     then [0; SEP; SEP; 0; (if kind =? 39 then 2 else 1); (if (29 <=? kind) && (kind <=? 31) then 2 else 0); 0; 0] else [98]) else
+     then [0; SEP; SEP; 0; (if kind =? 39 then 2 else 1); (if (29 <=? kind) && (kind <=? 31) then 2 else 0); 0; 0] else
+     if (kind <? 43) && (n =? 0) && (k =? 0) then [0; SEP; SEP; 0; 3; 0; 0; 0] else
+     if (kind <? 45) && (n =? 0) && (k =? 0) then [0; SEP; SEP; 0; 2; 1; 0; 0] else [98]) else
   if 24 <=? kind then
     (* kinds 24..27: make_mut / OffsetArc::make_mut / make_unique / unwrap_or_clone of a SHARED value whose type has no
        drop glue and is not Copy: exactly one Clone call, the copy is the Clone's result, the other owner's value is
